@@ -156,3 +156,18 @@ Theorem C03_map2_nk_merge_is_union (H : list (oprec (mop (mop oop)))) :
   m2reach_nk H s1 K1 -> m2reach_nk H s2 K2 -> m2reach_nk H s K -> K = K1 ∪ K2 -> mmerge vo2 s1 s2 = s.
 Proof. exact (map2_merge_is_union_nk H). Qed.
 Print Assumptions C03_map2_nk_merge_is_union.
+
+(** Map<K, Orswot> WITH key removes and merges, in the fragment the known findings leave: members are added under keys and keys are removed (no nested remove: T3), and every key that some key remove names is updated at most once by each actor ([km_once]: T2 needs two updates of one actor): merging two replicas yields exactly the state of a replica that learned the union of the ops; ops and merges mix freely
+    (proofs/MapOrswotKM.v) *)
+From Crdt Require Import model.Orswot model.Map spec.System spec.OrswotSpec spec.OrswotSystem spec.MapSpec spec.MapSystem spec.MapOrswotSpec spec.MapOrswotKM proofs.MapOrswotKM proofs.MapOrswotKMCor.
+Theorem C03_mapor_km_merge_spec (H : list (oprec (mop oop))) :
+  mohist_ok_km H -> km_once H -> forall (s1 : cmap orswot) (K1 : gset nat) (s2 : cmap orswot) (K2 : gset nat),
+  moreach_km H s1 K1 -> moreach_km H s2 K2 -> mmerge orswot_valops s1 s2 = mapor_spec_km H (K1 ∪ K2).
+Proof. exact (mapor_merge_spec_km H). Qed.
+Print Assumptions C03_mapor_km_merge_spec.
+
+Theorem C03_mapor_km_merge_is_union (H : list (oprec (mop oop))) :
+  mohist_ok_km H -> km_once H -> forall (s1 : cmap orswot) (K1 : gset nat) (s2 : cmap orswot) (K2 : gset nat) (s : cmap orswot) (K : gset nat),
+  moreach_km H s1 K1 -> moreach_km H s2 K2 -> moreach_km H s K -> K = K1 ∪ K2 -> mmerge orswot_valops s1 s2 = s.
+Proof. exact (mapor_merge_is_union_km H). Qed.
+Print Assumptions C03_mapor_km_merge_is_union.
